@@ -444,6 +444,8 @@ def entry_reset(ck, P, R="CUT/back-entry-reset"):
 def run(ck):
     P = prog("K1")
     ck.configs.add("K1")
+    from .. import guards as _gfe
+    _gfe.fast_loop_epilogue(ck, P)
     from .. import linear as _lin
     ck.floor("SIB/same-terms-same-threshold", _lin.same_threshold(ck, P, [f for f in sorted(P.fns.values(), key=lambda f: f.path) if f.path.startswith(Z + "inflate::")]), 1)
     n = decoders.check_rejections(ck, P, "ATOM/rejection", only_impls={BACK, FAST_BACK})
